@@ -55,7 +55,7 @@ Toks == {"tok:0", "tok:1", "tok:4", "tok:20"}
 Vals == {"v:0", "v:1", "v:1000", "v:1001"}
 Seqs == {"0", "1", "-1", "9223372036854775807", "-9223372036854775808"}
 Nodes == {"none", "nodes:0", "nodes:1", "nodes:2", "nodes:20", "nodes:50"}
-Salts == {"none", "salt:1", "salt:64", "salt:65"}
+Salts == {"none", "salt:0", "salt:1", "salt:64", "salt:65"}
 
 Env0 == [tid |-> "t:1", ver |-> "RS06", ip |-> "none", ro |-> FALSE]
 WithEnv(S) == {e @@ x : e \in {Env0}, x \in S}
